@@ -144,7 +144,7 @@ class Built:
 
     def _pred(self, name, pid):
         log = self.log
-        if name.startswith("eqopt"):
+        if name.startswith(("eqopt", "eqds:")):
             # an Evaluatable condition: "the value equals the value of option K" (with / without default)
             from .ref import cond_option
 
